@@ -17,7 +17,7 @@
 From Coq Require Import List NArith Bool.
 Import ListNotations.
 From LC.Base Require Import Utf8.
-From LC.V2 Require Import Tok TokInv Normalize NormProof.
+From LC.V2 Require Import Tok TokTables TokInv Normalize NormProof NormTables.
 
 (* in non-normalising mode every word is either the end-of-line token or
    space free, so splitting the normalised text at blanks recovers the words *)
@@ -56,6 +56,22 @@ Theorem C11_restricted : forall (T : tables), NormProof.tables_ok T -> forall rs
   d_matches (tokenize_runes T true (normalize_out (d_toks (tokenize_runes T false rs)))) = [].
 Proof. exact (@NormProof.C11_restricted). Qed.
 Print Assumptions C11_restricted.
+
+(* ... and for the tables of the running code: [norm_tables_wf] is a boolean (every rune below the bound B is
+   checked), evaluated by the extracted model on the dumped tables in every run of the C11 check *)
+Theorem C11_for_checked_tables :
+  forall (B : N) (letters digits spaces : list (N * N)) (lower : list (N * N * N)) (pm : list (N * list N))
+         (markers : list (list N)) (iw ue : list (list N * list N)),
+  NormTables.norm_tables_wf B letters digits spaces lower pm markers iw ue = true ->
+  let T := mk_tables letters digits spaces lower pm markers iw ue in
+  forall rs : list rune,
+  NormProof.flushes_ok T init_state rs = true ->
+  NormProof.canon_resid T 1 [] (d_toks (tokenize_runes T false rs)) = true ->
+  d_toks (tokenize_runes T true (normalize_out (d_toks (tokenize_runes T false rs)))) =
+  d_toks (tokenize_runes T true rs) /\
+  d_matches (tokenize_runes T true (normalize_out (d_toks (tokenize_runes T false rs)))) = [].
+Proof. exact NormTables.C11_for_checked_tables. Qed.
+Print Assumptions C11_for_checked_tables.
 
 (* Part A: what re-tokenizing the written text gives, for any well-formed raw token list *)
 Theorem C11_retokenize_normalized : forall (T : tables), NormProof.tables_ok T -> forall toks : list (word * N),
